@@ -184,6 +184,19 @@ def model_differential():
                 E.symbolic = False
             if x != text or r != d:
                 bad.append(("utf16", enc, text, x, r))
+    for text in ("A", "\xe9z", "\u20ac\x7f\x80", "\u07ff\u0800"):
+        n += 1
+        E.trail = []; E.begin_path(); E.symbolic = True
+        try:
+            d = text.encode("utf-16-le")
+            sb = E.sym_bytes("d", len(d))
+            for t, c in zip(sb.items, d):
+                E.add(t == c)
+            x = conc(rt.encode_model(rt.decode_model(sb, "utf-16-le"), "utf-8"))
+        finally:
+            E.symbolic = False
+        if x != text.encode("utf-8"):
+            bad.append(("utf8", text, x))
     return bad, n
 
 
